@@ -346,6 +346,36 @@ def rule_r2(ctx: Ctx) -> int:
                     why = "is_better is not strict: a tie replaces the stored best and is reported as a new best"
                 else:
                     why = "is_better compares in the wrong direction"
+        if not ok:
+            # another spelling (a key helper, a mirrored comparison, attrgetter): decided by interpreting is_better on fitness objects whose
+            # maximising aggregates are (3, 5), (5, 3), (5, 5), (-inf, 5), (5, -inf)
+            from ..modelinterp import Budget as _B, Interp as _I, Obj as _O, Sym as _S, UNKNOWN as _U
+            table = [((3, 5), False), ((5, 3), True), ((5, 5), False), ((float("-inf"), 5), False), ((5, float("-inf")), True)]
+            got, und_ = [], None
+            for (x, y), want in table:
+                itp = _I(prog, f.cls, lambda *_: None, lambda *a_, **k_: None, max_depth=5, max_traces=4)
+                fa = _O("Fitness", {"maximizing_aggregate": x, "fitness_components": [x]})
+                fb = _O("Fitness", {"maximizing_aggregate": y, "fitness_components": [y]})
+                try:
+                    runs = itp.run(f, {"self": _S("self"), a: fa, b: fb})
+                except _B:
+                    und_ = "too many interpretations"
+                    break
+                vals = {rv for tr, rv, nts in runs if not nts and not any(e.kind == "raise" for e in tr)}
+                if len(runs) != 1 or len(vals) != 1 or not isinstance(next(iter(vals)), bool):
+                    und_ = f"is_better on aggregates {x}, {y} is not followed"
+                    break
+                got.append((x, y, next(iter(vals)), want))
+            if und_ is None:
+                wrong = [(x, y, g_, w_) for x, y, g_, w_ in got if g_ != w_]
+                ok = not wrong
+                if wrong:
+                    x, y, g_, w_ = wrong[0]
+                    why = (f"is_better(a, b) with aggregates a={x}, b={y} is {g_}, expected {w_}: " +
+                           ("a tie replaces the stored best and is reported as a new best" if x == y else "the comparison runs in the wrong direction"))
+            elif "not a single strict comparison" in why:
+                ok = None
+                why = und_
         ctx.ob("C12.R2", f, f.node, "is_better(a, b) == a.aggregate > b.aggregate (strict)", ok, "" if ok else why)
     ctx.floor("C12.R2", n, 1, "is_better implementations")
 
